@@ -178,7 +178,9 @@ fn cmd_replay(args: &[String]) {
                             }
                         }
                     }
-                    if let Some(w) = evw.as_mut() {
+                    // fl.noev: the call's hook events are not handed to the trace validator (very long literal
+                    // operand lists: the machine's free operand order makes their validation exponential)
+                    if let Some(w) = evw.as_mut().filter(|_| !fl["noev"].as_bool().unwrap_or(false)) {
                         for e in run::events_aj(&o.events) {
                             writeln!(w, "{}", e).unwrap();
                         }
